@@ -1,0 +1,12 @@
+//go:build !verif
+
+package goatlang
+
+// No-op counterparts of the verification hooks in verif_hooks.go.
+
+type verifState struct{}
+
+func verifStep(v *VM)              {}
+func verifOptimizeOff() bool       { return false }
+func verifCanonKeysS(k *[]string)  {}
+func verifCanonKeysF(k *[]float64) {}
